@@ -235,7 +235,7 @@ pub fn strategy(max_n: usize) -> BoxedStrategy<Case> {
                 Just(results),
                 any::<bool>(),
                 spec_strategy(n, m, 3),
-                prop::collection::vec(any::<u64>(), 0..20),
+                crate::rngs::script_strategy(20),
                 1u8..4,
                 prop_oneof![3 => Just(None), 1 => results_strategy(max_n_of(n)).prop_map(Some)],
             )
@@ -252,10 +252,12 @@ pub fn strategy(max_n: usize) -> BoxedStrategy<Case> {
 }
 
 pub fn run(ctx: &mut Ctx) {
-    ctx.rule = "populations of 0..12 individuals with ragged / all-equal / duplicate-laden result vectors (Score and Error polarity); selector spec trees (depth <= 4) over Best, Worst, Random, Tournament(k around n), Lexicase(c around the result count), static WeightedPair trees, DynWeighted lists (also lists that were used for a selection while still being built), references and erased boxes, weights incl. 0 and u32::MAX; generated random stream, 1-3 draws per selector value, in a quarter of the cases alternating between two populations of different sizes and result counts. Oracle: pointer identity with an element of the population; errors only of the four documented kinds and only when a small model of the spec justifies them; must-fail configurations must fail. non-trivial = composite depth >= 2 or a boundary configuration; distinct by JSON encoding".into();
+    ctx.rule = "populations of 0..12 (and, in a second sub-check, 0..90) individuals with ragged / all-equal / duplicate-laden result vectors (Score and Error polarity); selector spec trees (depth <= 4) over Best, Worst, Random, Tournament(k around n), Lexicase(c around the result count), static WeightedPair trees, DynWeighted lists (also lists that were used for a selection while still being built), references and erased boxes, weights incl. 0 and u32::MAX; generated random stream, 1-3 draws per selector value, in a quarter of the cases alternating between two populations of different sizes and result counts. Oracle: pointer identity with an element of the population; errors only of the four documented kinds and only when a small model of the spec justifies them; must-fail configurations must fail. non-trivial = composite depth >= 2 or a boundary configuration; distinct by JSON encoding".into();
     ctx.assumptions.push("with more configured lexicase cases than results, Ok(member) is also accepted (the filter may reach one survivor first)".into());
     let n = ctx.tier.pick(300_000u32, 6_000_000);
     ctx.run_prop("selections", n, || strategy(12), oracle);
+    // larger populations (sorting, grouping and sampling code behaves differently beyond a few dozen elements)
+    ctx.run_prop("selections_larger_populations", n / 6, || strategy(90), oracle);
 }
 
 pub fn replay(ctx: &mut Ctx, sub: &str, case: &Value) {
